@@ -33,7 +33,7 @@ BASE_NS = 10 ** 18
 REAL_THRESHOLD_NS = 15 * 10 ** 17
 PP = b"#PP#PP#PP#PP"
 FOREIGN_NAMES = ["userdata.bin", "cachefile_notreally", "notreally_cachefile",
-                 "cachefile_x_cachefile.bak", "xcachefile_y_cachefile", "readme.txt"]
+                 "cachefile_x_cachefile.bak", "xcachefile_y_cachefile", "buoy_export.csv.download"]
 NRES, NCOM = 6, 4
 
 
